@@ -20,6 +20,7 @@ def answer (line : String) : String :=
     | "aoarm" => aoarmLine toks
     | "aoown" => aoownLine toks
     | "heap" => heapLine toks
+    | "track" => trackLine toks
     | "ao" => aoLine toks
     | "ps" => psLine toks
     | "qspy" => qspyLine toks
